@@ -273,6 +273,11 @@ def run(chk):
         return chk.finish(level="proof", rule="driver unavailable")
     drv = Driver()
     thorough = chk.tier == "thorough"
+    if thorough:
+        ok, out = common.leanchecker(['SqlLineage.Props.C14', 'SqlLineage.Proofs.FlatLemmas', 'SqlLineage.Model.Qualify'])
+        chk.coverage["leanchecker"] = "accepted" if ok else "REJECTED: " + out[-300:]
+        if not ok:
+            chk.lean.forbidden.append("leanchecker rejected the property's modules: " + out[-300:])
     dialects = ["ansi", "sparksql", "postgres"] if thorough else ["ansi"]
     st = sqlcheck.Stats()
     want = ("tables", "columns", "cyto")
